@@ -29,6 +29,8 @@ type c17Store struct {
 	Dir   string
 	Svc   *auth.IAMServiceInternal
 	Cache *auth.IAMCache
+	// Direct: operations bypass the cache (gateway run with the account cache disabled)
+	Direct bool
 }
 
 func newC17Store() *c17Store {
@@ -160,6 +162,24 @@ type c17Res struct {
 }
 
 func (s *c17Store) apply(o c17Op) c17Res {
+	if s.Direct {
+		// the gateway started with the account cache disabled: requests reach the file-backed service itself
+		switch o.Kind {
+		case "create":
+			return c17Res{Err: errS(s.Svc.CreateAccount(o.Acct))}
+		case "update":
+			return c17Res{Err: errS(s.Svc.UpdateUserAccount(o.Access, auth.MutableProps{Secret: o.Secret, UserID: o.UID, GroupID: o.GID}))}
+		case "delete":
+			return c17Res{Err: errS(s.Svc.DeleteUserAccount(o.Access))}
+		case "lookup":
+			a, err := s.Svc.GetUserAccount(o.Access)
+			return c17Res{Err: errS(err), Acct: a}
+		case "list":
+			l, err := s.Svc.ListUserAccounts()
+			return c17Res{Err: errS(err), Accts: l}
+		}
+		return c17Res{}
+	}
 	switch o.Kind {
 	case "create":
 		return c17Res{Err: errS(s.Cache.CreateAccount(o.Acct))}
@@ -402,6 +422,7 @@ type c17Scn struct {
 	Prime   []string // lookups done before the threads start (cache warm)
 	Tick    bool     // advance the clock past the TTL after priming (entries expired)
 	Threads [][]c17Op
+	NoCache bool // operations go to the file-backed service directly (cache disabled)
 }
 
 func c17Scenarios(thorough bool) []c17Scn {
@@ -427,6 +448,15 @@ func c17Scenarios(thorough bool) []c17Scn {
 		{Name: "delete|create same key", Init: []auth.Account{u1}, Threads: [][]c17Op{{del("u1")}, {cr(auth.Account{Access: "u1", Secret: "new", Role: auth.RoleUser, UserID: 7, GroupID: 8})}}},
 		{Name: "lookup(miss)|create", Init: nil, Threads: [][]c17Op{{lk("u2")}, {cr(u2)}}},
 	}
+	// the same mutation races without the cache in front (its fill lock serialises mutations otherwise)
+	scns = append(scns,
+		c17Scn{Name: "no-cache: update-secret|update-uid", NoCache: true, Init: []auth.Account{u1}, Threads: [][]c17Op{{upS}, {upU}}},
+		c17Scn{Name: "no-cache: update|delete", NoCache: true, Init: []auth.Account{u1}, Threads: [][]c17Op{{upS}, {del("u1")}}},
+		c17Scn{Name: "no-cache: create|create same key", NoCache: true, Init: nil, Threads: [][]c17Op{{cr(u2)}, {cr(auth.Account{Access: "u2", Secret: "zz", Role: auth.RoleAdmin})}}},
+		c17Scn{Name: "no-cache: delete|create same key", NoCache: true, Init: []auth.Account{u1}, Threads: [][]c17Op{{del("u1")}, {cr(auth.Account{Access: "u1", Secret: "new", Role: auth.RoleUser, UserID: 7, GroupID: 8})}}},
+		c17Scn{Name: "no-cache: lookup|update-secret", NoCache: true, Init: []auth.Account{u1}, Threads: [][]c17Op{{lk("u1")}, {upS}}},
+		c17Scn{Name: "no-cache: update|create other key", NoCache: true, Init: []auth.Account{u1}, Threads: [][]c17Op{{upU}, {cr(u2)}}},
+	)
 	if thorough {
 		scns = append(scns,
 			c17Scn{Name: "lookup|delete|lookup", Init: []auth.Account{u1}, Threads: [][]c17Op{{lk("u1")}, {del("u1")}, {lk("u1")}}},
@@ -476,7 +506,9 @@ func c17Interleavings(r *ck.Run, st *c17Store, scn c17Scn, bound int) {
 		init[a.Access] = a
 	}
 	setup := func() []func() {
+		st.Direct = false
 		st.reset(scn.Init...)
+		st.Direct = scn.NoCache
 		for _, a := range scn.Prime {
 			st.apply(c17Op{Kind: "lookup", Access: a})
 		}
@@ -577,7 +609,7 @@ func C17(r *ck.Run) {
 	if r.Thorough() {
 		depth, bound = 5, 3
 	}
-	r.Rule(fmt.Sprintf("(a) breadth-first search over every history of length <= %d of 13 operations (create / update secret,uid,gid / delete / lookup / list / advance-clock-past-TTL on 2 access keys) on a real IAMCache over a real file-backed IAMServiceInternal, states deduplicated on (reference map, users.json, cache contents); (b) every interleaving with <= %d preemptions of 2-3 logical threads running lookups (cache miss, expired, hit) against concurrent delete / update / create, and concurrent admin mutations, checked for linearizability including quiescent lookups afterwards and the integrity of users.json; (c) end-to-end slice through HTTP; distinct = distinct state / schedule", depth, bound))
+	r.Rule(fmt.Sprintf("(a) breadth-first search over every history of length <= %d of 13 operations (create / update secret,uid,gid / delete / lookup / list / advance-clock-past-TTL on 2 access keys) on a real IAMCache over a real file-backed IAMServiceInternal, states deduplicated on (reference map, users.json, cache contents); (b) every interleaving with <= %d preemptions of 2-3 logical threads running lookups (cache miss, expired, hit) against concurrent delete / update / create, and concurrent admin mutations (also with the cache disabled, straight on the file-backed service), checked for linearizability including quiescent lookups afterwards and the integrity of users.json; (c) end-to-end slice through HTTP; distinct = distinct state / schedule", depth, bound))
 	r.Assume("single file-system calls are atomic; the cache TTL is driven by a harness-owned clock (vtime); one gateway process (the statement is about changes through one gateway)")
 	scns := c17Scenarios(r.Thorough())
 	r.Sharded(16, func() {
